@@ -43,7 +43,7 @@ mod c18 {
     /// A positive length is only ever reported when a primitive produced a segment.
     // TIER: quick   KIND: complete
     #[kani::proof]
-    #[kani::unwind(4)]
+    #[kani::unwind(8)]
     #[kani::stub(Session::prep_tx_handshake, stub_prep_tx_handshake)]
     #[kani::stub(Session::prep_tx_data, stub_prep_tx_data)]
     #[kani::stub(Session::is_ack_due, stub_is_ack_due)]
